@@ -1,5 +1,6 @@
+import QuicModel.Drivers.CidTrace
 import QuicModel.Drivers.VarInt
 namespace Quic.Drivers
 def all : List Component :=
-  VarInt.components
+  CidTrace.components ++ VarInt.components
 end Quic.Drivers
